@@ -524,6 +524,18 @@ func (c *Ctx) Extract(a *Term, hi, lo int) *Term {
 	if a.IsConst() {
 		return c.Const(hi-lo+1, a.C>>uint(lo))
 	}
+	switch a.Op {
+	case OpIte:
+		return c.Ite(a.Args[0], c.Extract(a.Args[1], hi, lo), c.Extract(a.Args[2], hi, lo))
+	case OpZExt:
+		inner := a.Args[0]
+		if hi < inner.W {
+			return c.Extract(inner, hi, lo)
+		}
+		if lo >= inner.W {
+			return c.Const(hi-lo+1, 0)
+		}
+	}
 	return c.mk(&Term{Op: OpExtract, W: hi - lo + 1, Aux: hi<<8 | lo, Args: []*Term{a}})
 }
 
